@@ -72,6 +72,7 @@ type tbHist struct {
 	st      *tbStats
 	maxSeat int
 	nextID  int
+	interval   int  // GameContinueInterval of this table (seconds): > 0 leaves a window between settlement and the continue handler
 	expectHand bool // the harness is inside tryOpen … playHand: a hand may be open
 	dead    bool // engine abandoned (refused open holds the lock for 30 s, hang, panic)
 	synth   *SynthBackend
@@ -559,8 +560,25 @@ func (h *tbHist) playHand1() bool {
 	h.line("tb settle res=%s | ok", strings.Join(res, ","))
 	h.rec("settle", nil)
 	h.line("tb obs %s sm=? gate=? rel=?", tableObs(settled))
-	// continue (interval 0: synchronous in the hand's updater goroutine)
-	done := waitFor(2*time.Second, func() bool {
+	if h.interval > 0 && h.r.Intn(2) == 0 {
+		// in the window between settlement and the delayed continue handler: the level changes (a break begins or ends,
+		// or another level) — the handler decides on the level in force when it runs
+		cur := h.table().State.BlindState
+		if cur != nil && cur.Level == -1 {
+			h.rig.te.UpdateBlind(2, 0, 0, 20, 40)
+			h.line("tb blind %d,%d,%d,%d,%d", 2, 0, 0, 20, 40)
+		} else if h.r.Intn(3) != 0 {
+			h.rig.te.UpdateBlind(-1, 0, 0, 0, 0)
+			h.line("tb blind %d,%d,%d,%d,%d", -1, 0, 0, 0, 0)
+		} else {
+			h.rig.te.UpdateBlind(3, 0, 0, 30, 60)
+			h.line("tb blind %d,%d,%d,%d,%d", 3, 0, 0, 30, 60)
+		}
+		h.rec("blind", nil)
+		h.st.OpMix["blind-change-between-settlement-and-continue"]++
+	}
+	// continue (interval 0: synchronous in the hand's updater goroutine; interval 1: a second later)
+	done := waitFor(time.Duration(2+h.interval)*time.Second, func() bool {
 		lt := h.table()
 		if lt.State.GameState != nil {
 			return false
@@ -568,8 +586,7 @@ func (h *tbHist) playHand1() bool {
 		if lt.State.Status == pokertable.TableStateStatus_TablePausing {
 			return true
 		}
-		g, _, _ := h.rig.gateState()
-		return lt.State.Status == pokertable.TableStateStatus_TableGameStandby && g == gc+1
+		return lt.State.Status == pokertable.TableStateStatus_TableGameStandby && h.rig.gateCount() == gc+1
 	})
 	if !done {
 		// closed / released tables and unhandled situations end here: give the handler a moment, then look
@@ -579,7 +596,7 @@ func (h *tbHist) playHand1() bool {
 	}
 	lt := h.table()
 	out := "nothing"
-	g, _, _ := h.rig.gateState()
+	g := h.rig.gateCount()
 	switch {
 	case lt.State.Status == pokertable.TableStateStatus_TablePausing:
 		out = "paused"
@@ -854,12 +871,22 @@ func genTBHistory(r *rand.Rand, st *tbStats, hid int, maxHands int) string {
 	}
 	h.synth = &SynthBackend{}
 	h.synth.ResultFn = h.planResult
-	rig, err := NewRig(setting, h.synth, 0)
+	if r.Intn(5) == 0 {
+		// the continue handler runs one second after settlement: blind updates can land in between
+		h.interval = 1
+		if maxHands > 3 {
+			maxHands = 3
+		}
+	}
+	rig, err := NewRig(setting, h.synth, h.interval)
 	if err != nil {
 		return ""
 	}
 	h.rig = rig
 	st.Histories++
+	if h.interval > 0 {
+		st.OpMix["histories-with-a-continue-interval"]++
+	}
 	st.SeatCounts[strconv.Itoa(h.maxSeat)]++
 	st.Modes[mode]++
 	h.line("tb new seats=%d min=%d rule=default mode=%s blind=%s h=%d", h.maxSeat, minP, mode, blindStr(&blind), hid)
